@@ -117,8 +117,14 @@ pub fn set_render(on: bool) {
 
 pub fn diag_json(e: &penne::alpha::Error) -> Value {
     let l = e.verif_location();
+    // `dh`: a fixed (process-independent) hash of the whole diagnostic -- every name, message parameter and
+    // secondary location, not only the code and the primary location (determinism is about all of it)
+    let mut dh: u64 = 0xcbf29ce484222325;
+    for b in format!("{e:?}").bytes() {
+        dh = (dh ^ b as u64).wrapping_mul(0x100000001b3);
+    }
     let mut v = json!({"code": e.code(), "line": l.line_number, "col": l.line_offset,
-           "start": l.span.start, "end": l.span.end, "file": l.source_filename});
+           "start": l.span.start, "end": l.span.end, "file": l.source_filename, "dh": format!("{dh:016x}")});
     let budget = RENDER_BUDGET.with(|b| {
         let n = b.get();
         b.set(n.saturating_sub(1));
